@@ -487,8 +487,9 @@ def run_check(prop, tier, verif_seed, n_runs=None, wall=None, procs=None,
         }
         os.makedirs(os.path.join(ROOT, 'evidence'), exist_ok=True)
         with open(os.path.join(ROOT, 'evidence', prop + '.json'), 'w') as f:
-            json.dump(ev, f, indent=1, sort_keys=True,
-                      default=kernel._json_default)
+            json.dump(_strict(json.loads(json.dumps(
+                ev, default=kernel._json_default))), f, indent=1,
+                sort_keys=True, allow_nan=False)
     if not quiet:
         print('%s tier=%s seed=%d runs=%d distinct=%d nontrivial=%d '
               'failures=%d known_hits=%s wall=%.1fs' % (
@@ -500,8 +501,19 @@ def run_check(prop, tier, verif_seed, n_runs=None, wall=None, procs=None,
     return exit_code, agg, lines
 
 
+def _strict(o):
+    """NaN / infinity are not JSON: written as strings in evidence files."""
+    if isinstance(o, float) and (o != o or o in (float('inf'), -float('inf'))):
+        return repr(o)
+    if isinstance(o, dict):
+        return {k: _strict(v) for k, v in o.items()}
+    if isinstance(o, (list, tuple)):
+        return [_strict(v) for v in o]
+    return o
+
+
 def _compact(s):
-    s = {k: v for k, v in s.items() if k not in ('violation',)}
+    s = _strict({k: v for k, v in s.items() if k not in ('violation',)})
     text = json.dumps(s, default=kernel._json_default)
     if len(text) > 6000:
         s = dict(s)
